@@ -209,6 +209,24 @@ def search(spec):
                            "path": {"k": "nil"}}, meta)
                 if hit:
                     return hit, n
+    if oracle == "C01":
+        zoo = N.C17_ZOO + [
+            "schema.str('AB-12').regex('[A-Z]{2}-[0-9]{2}')", "schema.str('x').len(1)", "schema.str('abc').alphabet('abc').contains('b')",
+            "schema.int(3).min(0).max(9)", "schema.float(1.5).precision(1)", "schema.list(schema.int).len(0)",
+            "schema.list(schema.str.len(1)).len(0, 2)", "schema.list([schema.int, schema.str])", "schema.list([schema.int, ...])",
+            "schema.list([..., schema.int])", "schema.list([..., schema.int, ...])", "schema.str.len(0)", "schema.str.len(0, 0)",
+            "schema.str.len(40)", "schema.str.regex('a{40,}')", "schema.str.regex('[^a-y]')", "schema.int.min(5).max(5)",
+            "schema.float.min(0.5).max(0.5)", "schema.dict({'a': schema.int, optional('b'): schema.str})", "schema.dict",
+            "schema.dict({'a': schema.int, ...: ...})", "schema.any", "schema.any(schema.none)", "schema.bool(True)", "schema.none",
+            "schema.list(schema.int).len(3)", "schema.list.len(2)", "schema.bytes(b'x')", "schema.list(schema.list(schema.int).len(1)).len(2)",
+        ]
+        for e in zoo:
+            n += 1
+            inputs = {"schema": {"k": "expr", "src": e}}
+            hit = run(inputs, meta)
+            if hit:
+                return hit, n
+        return None, n
     if oracle == "C17":
         # the C17 oracle carries its own zoo of seeded schemas, run in three interpreters with different hash seeds
         n += 1
